@@ -269,98 +269,110 @@ func ruleEmitterSiblings(c *core.Ctx) {
 // parenthesised also at equal precedence (left associativity).
 func ruleParenthesisation(c *core.Ctx) {
 	const rule = "X3"
-	c.Rule(rule, "in each emitter the parenthesisation test in front of Visit(t.Left)/Visit(t.Right) inspects that same operand, and the right operand of a left-associative operator is parenthesised at equal precedence (`<=`), so `a - (b - c)` keeps its meaning", 6)
+	c.Rule(rule, "in each emitter, for every shape of a binary expression (parent operator x left operand x right operand, operands being non-binary or binary with any operator), an operand is parenthesised whenever the target language would otherwise regroup it: lower precedence than the parent; equal precedence on the right of a left-associative operator; equal precedence on the left of a right-associative one (Python **)", 6)
+	var ref struct {
+		Assoc map[string]map[string]string `json:"associativity"`
+	}
+	if err := loadRef("operators.json", &ref); err != nil {
+		c.Undecided(rule, "refs/operators.json", 0, err.Error())
+		return
+	}
+	// the operators and their yardl precedence, from pkg/dsl
+	var ops []string
+	dsc := c.Pkg("pkg/dsl").Types.Scope()
+	for _, n := range dsc.Names() {
+		if k, ok := dsc.Lookup(n).(*types.Const); ok && strings.HasPrefix(k.Name(), "BinaryOp") {
+			ops = append(ops, k.Name())
+		}
+	}
+	sort.Strings(ops)
+	prec := map[string]int64{}
+	var precDecl *ast.FuncDecl
+	for _, d := range c.AllDecls() {
+		if d.Name.Name == "Precedence" && d.Recv != nil && c.DeclPkg(d) == c.Pkg("pkg/dsl") {
+			precDecl = d
+		}
+	}
+	if precDecl == nil || len(precDecl.Recv.List[0].Names) != 1 {
+		c.Undecided(rule, "anchor/BinaryOperator.Precedence", 0, "method not found")
+		return
+	}
+	for _, op := range ops {
+		dinfo := c.Pkg("pkg/dsl").TypesInfo
+		pi := &pinterp{c: c}
+		env := &penv{vars: map[types.Object]pval{dinfo.Defs[precDecl.Recv.List[0].Names[0]]: {k: pvOp, s: op}}}
+		pi.exec(dinfo, precDecl.Body.List, env)
+		if len(pi.ret) != 1 || pi.ret[0].k != pvInt {
+			c.Undecided(rule, "Precedence("+op+")", precDecl.Pos(), "cannot evaluate the precedence of "+op)
+			return
+		}
+		prec[op] = pi.ret[0].n
+	}
 	for _, em := range exprEmitters {
 		_, d, p := c.Func(em.pkg, em.fn)
 		if d == nil {
 			c.Undecided(rule, em.name+"/anchor", 0, "emitter not found")
 			continue
 		}
-		info := p.TypesInfo
-		// statements of the *dsl.BinaryExpression case, flattened in order
-		var body []ast.Stmt
-		ast.Inspect(d.Body, func(n ast.Node) bool {
-			cc, ok := n.(*ast.CaseClause)
-			if !ok || len(cc.List) != 1 || types.ExprString(cc.List[0]) != "*dsl.BinaryExpression" {
-				return true
-			}
-			var collect func(list []ast.Stmt)
-			collect = func(list []ast.Stmt) {
-				for _, s := range list {
-					body = append(body, s)
-					if es, ok := s.(*ast.ExprStmt); ok {
-						if ce, ok := es.X.(*ast.CallExpr); ok {
-							for _, a := range ce.Args {
-								if fl, ok := a.(*ast.FuncLit); ok {
-									collect(fl.Body.List)
-								}
-							}
-						}
-					}
-				}
-			}
-			collect(cc.Body)
-			return false
-		})
-		if len(body) == 0 {
-			c.Undecided(rule, em.name+"/BinaryExpression case", d.Pos(), "case *dsl.BinaryExpression not found")
+		dec, unk := parenDecisions(c, p.TypesInfo, d, ops)
+		if dec == nil {
+			c.Undecided(rule, em.name+"/BinaryExpression case", d.Pos(), "the parenthesisation decision could not be evaluated: "+unk)
 			continue
 		}
-		lastTest := "" // "Left"/"Right" of the most recent parenthesisation test
-		lastOp := token.ILLEGAL
-		lastHasPowClause := false
-		for _, s := range body {
-			if is, ok := s.(*ast.IfStmt); ok {
-				if as, ok := is.Init.(*ast.AssignStmt); ok && len(as.Rhs) == 1 {
-					if ta, ok := as.Rhs[0].(*ast.TypeAssertExpr); ok {
-						if sel, ok := ta.X.(*ast.SelectorExpr); ok && (sel.Sel.Name == "Left" || sel.Sel.Name == "Right") {
-							lastTest = sel.Sel.Name
-							lastOp = token.ILLEGAL
-							lastHasPowClause = strings.Contains(types.ExprString(is.Cond), "BinaryOpPow")
-							ast.Inspect(is.Cond, func(m ast.Node) bool {
-								if be, ok := m.(*ast.BinaryExpr); ok && (be.Op == token.LSS || be.Op == token.LEQ) {
-									if strings.Contains(types.ExprString(be.X), "Precedence()") && strings.Contains(types.ExprString(be.Y), "Precedence()") && lastOp == token.ILLEGAL {
-										lastOp = be.Op
-									}
-								}
-								return true
-							})
-						}
+		assoc := func(op string) string {
+			if a := ref.Assoc[em.name][op]; a != "" {
+				return a
+			}
+			return "left"
+		}
+		for _, side := range []string{"left", "right"} {
+			Side := strings.ToUpper(side[:1]) + side[1:]
+			var missLower, missEqual []string
+			for _, sc := range sortedScen(dec[side]) {
+				child := sc.left
+				if side == "right" {
+					child = sc.right
+				}
+				if child == "" || assoc(sc.parent) == "function" {
+					continue // not a binary expression / the parent is printed as a function call with separate arguments
+				}
+				need, why := false, ""
+				switch {
+				case prec[child] < prec[sc.parent]:
+					need, why = true, "lower"
+				case prec[child] == prec[sc.parent] && side == "right" && assoc(sc.parent) != "right":
+					need, why = true, "equal"
+				case prec[child] == prec[sc.parent] && side == "left" && assoc(sc.parent) == "right":
+					need, why = true, "equal"
+				}
+				if need && !dec[side][sc] {
+					ex := fmt.Sprintf("parent %s, %s operand %s", strings.TrimPrefix(sc.parent, "BinaryOp"), side, strings.TrimPrefix(child, "BinaryOp"))
+					if why == "lower" {
+						missLower = append(missLower, ex)
+					} else {
+						missEqual = append(missEqual, ex)
 					}
 				}
 			}
-			es, ok := s.(*ast.ExprStmt)
-			if !ok {
-				continue
+			key := em.name + "/" + Side + " operand"
+			c.Check(len(missLower) == 0, rule, key+"/lower precedence parenthesised", d.Pos(), "every "+side+" operand of lower precedence than its parent is parenthesised ("+fmt.Sprint(len(dec[side]))+" shapes evaluated)",
+				"a "+side+" operand of lower precedence is printed without parentheses ("+strings.Join(firstN(missLower, 3), "; ")+"): `a * (b + c)` is emitted as `a * b + c`")
+			if side == "right" {
+				c.Check(len(missEqual) == 0, rule, key+"/equal precedence parenthesised", d.Pos(), "right operand parenthesised at equal precedence (left-associative operators)",
+					"the right operand is printed without parentheses at equal precedence ("+strings.Join(firstN(missEqual, 3), "; ")+"): `a - (b - c)` is emitted as `a - b - c`")
+			} else {
+				c.Check(len(missEqual) == 0, rule, key+"/pow left operand", d.Pos(), "the left operand of a right-associative operator is parenthesised at equal precedence",
+					"the left operand of a right-associative operator is printed without parentheses ("+strings.Join(firstN(missEqual, 3), "; ")+"): `(a ** b) ** c` becomes `a ** b ** c` = a ** (b ** c)")
 			}
-			ce, ok := es.X.(*ast.CallExpr)
-			if !ok || len(ce.Args) == 0 {
-				continue
-			}
-			if f := core.Callee(info, ce); f == nil || f.Name() != "Visit" {
-				continue
-			}
-			sel, ok := ce.Args[0].(*ast.SelectorExpr)
-			if !ok || (sel.Sel.Name != "Left" && sel.Sel.Name != "Right") {
-				continue
-			}
-			side := sel.Sel.Name
-			if lastTest == "" {
-				continue // operands of std::pow(l, r): separated by a comma, no parentheses needed
-			}
-			key := em.name + "/" + side + " operand"
-			c.Check(lastTest == side, rule, key+"/test looks at the same operand", ce.Pos(), "parenthesisation test inspects t."+side,
-				"the parentheses around t."+side+" are decided by looking at t."+lastTest+": `a * (b + c)` can be emitted as `a * b + c`")
-			if side == "Right" {
-				c.Check(lastOp == token.LEQ, rule, key+"/equal precedence parenthesised", ce.Pos(), "right operand parenthesised when its precedence is <= the parent's",
-					"right operand is parenthesised only at strictly lower precedence: `a - (b - c)` is emitted as `a - b - c`")
-			} else if em.name != "cpp" {
-				c.Check(lastHasPowClause || lastOp == token.LEQ, rule, key+"/pow left operand", ce.Pos(), "left operand of ** is parenthesised at equal precedence",
-					"`(a ** b) ** c` loses its parentheses: ** is right-associative in Python, so the value changes")
-			}
-			lastTest = ""
 		}
 	}
+}
+
+func firstN(l []string, n int) []string {
+	if len(l) > n {
+		return l[:n]
+	}
+	return l
 }
 
 // X4: operator tokens per back end vs refs/operators.json.
